@@ -52,6 +52,12 @@ PAYLOAD_KEEP = {'std::option::Option::<T>::ok_or', 'std::option::Option::<T>::ok
 CLONE = {'std::clone::Clone::clone', 'std::borrow::ToOwned::to_owned',
          'std::option::Option::<&T>::cloned', 'std::option::Option::<&T>::copied'}
 INDEX = {'std::ops::Index::index', 'std::ops::IndexMut::index_mut'}
+CMP_CALLS = {'std::cmp::PartialOrd::lt': 'Lt', 'std::cmp::PartialOrd::le': 'Le', 'std::cmp::PartialOrd::gt': 'Gt',
+             'std::cmp::PartialOrd::ge': 'Ge', 'std::cmp::PartialEq::eq': 'Eq', 'std::cmp::PartialEq::ne': 'Ne'}
+ARITH_CALLS = {'std::ops::Add::add': 'Add', 'std::ops::Sub::sub': 'Sub', 'std::ops::Mul::mul': 'Mul', 'std::ops::Div::div': 'Div',
+               'std::ops::Rem::rem': 'Rem'}
+import re as _re
+PRIM_REF = _re.compile(r'^&*(mut )?&*(f64|f32|usize|isize|u8|u16|u32|u64|u128|i8|i16|i32|i64|i128|bool|char)$')
 
 
 def T(*nodes):
@@ -569,6 +575,8 @@ class Fn:
                 if k < len(fields):
                     out |= fields[k][1]
                     continue
+            if n[0] == 'agg' and n[1] in ('std::ops::ControlFlow', 'std::result::Result', 'std::option::Option') and n[2] != vname:
+                continue                # a literal of another variant: this definition cannot reach a read of `vname`'s payload
             rest.add(n)
         if rest:
             out.add(('payload', frozenset(rest), vname, k))
@@ -665,6 +673,15 @@ class Fn:
             return T(('clone', args[0]))
         if path in INDEX and len(args) == 2:
             return T(('index', args[0], args[1]))
+        if path in CMP_CALLS and len(args) == 2 and PRIM_REF.match(f.get('self_ty') or ''):
+            # `a < b` on references to primitives is a call of the blanket impl for &A; references are transparent in terms
+            return T(('binop', CMP_CALLS[path], args[0], args[1]))
+        if path in ARITH_CALLS and len(args) == 2 and PRIM_REF.match(f.get('self_ty') or ''):
+            return T(('binop', ARITH_CALLS[path], args[0], args[1]))     # `&a + b`, `a - &b`, .. on primitives
+        if path == 'std::ops::Neg::neg' and len(args) == 1 and PRIM_REF.match(f.get('self_ty') or ''):
+            return T(('unop', 'Neg', args[0]))
+        if path == 'core::slice::<impl [T]>::len':
+            path = 'std::vec::Vec::<T, A>::len'     # Deref is transparent: the length of a vector seen as a slice
         return T(('call', path, args, site))
 
     def rvalue_terms(self, rv, point, mut_kills=True):
@@ -866,6 +883,14 @@ class Fn:
                 continue
             terms, tmap, other = si
             neg = None
+            only = None
+            lits = [n for n in terms if n[0] == 'const' and n[1] in ('true', 'false')]
+            if lits and len(lits) < len(terms):
+                fi = self.flag_info(b)
+                if fi is None:
+                    continue
+                only = fi[0] == 'false'          # the edge on which the flag holds its computed value
+                terms = frozenset(n for n in terms if n not in lits)
             ok = bool(terms)
             for n in terms:
                 m, ng = n, False
@@ -895,10 +920,114 @@ class Fn:
                 t_t, f_t = f_t, t_t
             if t_t == f_t:
                 continue
-            te.add((b, t_t))
-            fe.add((b, f_t))
+            if only is None:
+                te.add((b, t_t))
+                fe.add((b, f_t))
+            else:
+                # (t_t, f_t) are the edges on which the accepted term is true / false; the flag speaks for it only on the raw
+                # edge where it cannot be the literal: raw true edge for `a && x` (literal false), raw false for `a || x`
+                raw_t, raw_f = (t_t, f_t) if not neg else (f_t, t_t)
+                e = raw_t if only else raw_f
+                if e == t_t:
+                    te.add((b, t_t))
+                else:
+                    fe.add((b, f_t))
             sb.append(b)
         return te, fe, sb
+
+    # ------------------------------------------------------------------ materialised boolean flags
+    def flag_root(self, b):
+        """the local holding the flag switched on in block b, plain copies followed (`_9 = _5; switch(move _9)`)"""
+        t = self.blocks[b]['term']
+        if t['k'] != 'switch':
+            return None
+        pl = t['discr'].get('move') or t['discr'].get('copy')
+        if pl is None or pl['p']:
+            return None
+        l, seen = pl['l'], set()
+        for _ in range(4):
+            defs = [st for blk in self.blocks if not blk['cleanup'] for st in blk['stmts']
+                    if st['k'] == 'assign' and st['place']['l'] == l]
+            cdefs = [blk for blk in self.blocks if not blk['cleanup'] and blk['term']['k'] == 'call' and blk['term']['dest']['l'] == l]
+            if len(defs) == 1 and not cdefs and not defs[0]['place']['p'] and defs[0]['rv']['k'] == 'use':
+                src = defs[0]['rv']['op'].get('move') or defs[0]['rv']['op'].get('copy')
+                if src is not None and not src['p'] and src['l'] not in seen:
+                    seen.add(l)
+                    l = src['l']
+                    continue
+            return l
+        return None
+
+    def flag_info(self, b):
+        """block b switches on a bool local whose definitions are literals of one kind plus exactly one computed value
+        (`let f = a && b`: false / b;  `a || b`: true / b), assigned afresh on every way round to b:
+        returns (literal 'false'|'true', block of the computed definition), else None"""
+        key = ('flag', b)
+        if key in self._memo:
+            return self._memo[key]
+        res = None
+        l = self.flag_root(b)
+        if l is not None and self.b.local_ty(l) == 'bool':
+            lits, comp = [], []
+            for bi, blk in enumerate(self.blocks):
+                if blk['cleanup']:
+                    continue
+                for st in blk['stmts']:
+                    if st['k'] == 'assign' and st['place']['l'] == l:
+                        if st['place']['p']:
+                            comp.append(None)
+                        elif st['rv']['k'] == 'use' and 'const' in st['rv']['op'] and isinstance(st['rv']['op']['const'].get('val'), bool):
+                            lits.append((bi, st['rv']['op']['const']['val']))
+                        else:
+                            comp.append(bi)
+                t = blk['term']
+                if t['k'] == 'call' and t['dest']['l'] == l:
+                    comp.append(bi if not t['dest']['p'] else None)
+            if lits and len(comp) == 1 and comp[0] is not None and len({v for _b, v in lits}) == 1:
+                defs = frozenset([comp[0]] + [x for x, _v in lits])
+                fresh = b not in defs
+                if fresh:
+                    for s0 in self.succs(b):
+                        if s0 not in defs and b in self.reachable(s0, stop=defs):
+                            fresh = False
+                if fresh:
+                    res = ('true' if lits[0][1] else 'false', comp[0])
+        self._memo[key] = res
+        return res
+
+    def guarded_by(self, block, edges, _depth=0):
+        """every path from the entry to `block` takes one of `edges`; a block that is only reached over the edge of a flag
+        switch on which the flag holds its computed value (`if a && f(x)` materialised as a bool) counts as reached
+        through the block computing it"""
+        edges = frozenset(edges)
+        if not edges:
+            return False
+        if block not in self.reachable(0, removed=edges):
+            return True
+        if _depth >= 3:
+            return False
+        for b in range(self.nb):
+            if self.blocks[b]['cleanup'] or self.blocks[b]['term']['k'] != 'switch':
+                continue
+            fi = self.flag_info(b)
+            if fi is None:
+                continue
+            lit, D = fi
+            si = self.switch_info(b)
+            if si is None:
+                continue
+            _terms, tmap, other = si
+            if set(tmap.keys()) == {'0'}:
+                f_t, t_t = tmap['0'], other
+            elif set(tmap.keys()) == {'1'}:
+                t_t, f_t = tmap['1'], other
+            else:
+                continue
+            e = (b, t_t) if lit == 'false' else (b, f_t)
+            if t_t != f_t and block not in self.reachable(0, removed=frozenset([e])) and D != block:
+                if self.guarded_by(D, edges, _depth + 1):
+                    return True
+        return False
 
     def discr_edges(self, pred):
         """for every switch on discriminant(X) with pred(X terms): {variant value (str): set of edges};
